@@ -223,6 +223,22 @@ def _scenario(R, sc, in_thread):
                                 keep_last_line=cfg.get("keep_last_line", False))
     else:
         win = None
+    # the plain context managers are constructed here, i.e. possibly long before they are
+    # entered
+    cm = None
+    if kind == "cbreak":
+        cm = Cbreak(stream)
+    elif kind == "termmode":
+        attrs = termios.tcgetattr(fd)
+        attrs[3] &= ~termios.ECHO
+        cm = Termmode(stream, attrs)
+    elif kind == "nonblocking":
+        cm = Nonblocking(stream)
+    if sc.get("late"):
+        # the application changes the tty and the flags between constructing the object and
+        # entering it: what must come back is the state at ENTRY
+        set_tty_mode(fd, R.cooked, sc["late"])
+        fcntl.fcntl(fd, fcntl.F_SETFL, fcntl.fcntl(fd, fcntl.F_GETFL) ^ os.O_APPEND)
     main_before = (term.text(term.main), term.y, term.x) if term else None
     base = snap(fd, with_wakeup=not in_thread)
     nb_violation = []
@@ -298,17 +314,26 @@ def _scenario(R, sc, in_thread):
                 with inp:
                     guarded()
         elif kind == "cbreak":
-            with Cbreak(stream) as normal:
+            with cm as normal:
                 objs["normal"] = normal
                 guarded()
-        elif kind == "termmode":
-            attrs = termios.tcgetattr(fd)
-            attrs[3] &= ~termios.ECHO
-            with Termmode(stream, attrs):
+            if sc.get("twice"):
+                # the same object used a second time after the application changed the state
+                set_tty_mode(fd, R.cooked, sc["twice"])
+                fcntl.fcntl(fd, fcntl.F_SETFL, fcntl.fcntl(fd, fcntl.F_GETFL) ^ os.O_APPEND)
+                base = snap(fd, with_wakeup=not in_thread)
+                with cm as normal:
+                    objs["normal"] = normal
+                    guarded()
+        elif kind in ("termmode", "nonblocking"):
+            with cm:
                 guarded()
-        elif kind == "nonblocking":
-            with Nonblocking(stream):
-                guarded()
+            if sc.get("twice"):
+                set_tty_mode(fd, R.cooked, sc["twice"])
+                fcntl.fcntl(fd, fcntl.F_SETFL, fcntl.fcntl(fd, fcntl.F_GETFL) ^ os.O_APPEND)
+                base = snap(fd, with_wakeup=not in_thread)
+                with cm:
+                    guarded()
         else:
             raise ValueError(kind)
     except inject.Inject as ex:
@@ -444,6 +469,15 @@ def matrix(rng, quick):
                                 "thread": thread, "tty": rng.choice(TTY_MODES),
                                 "flags": rng.choice([0, os.O_NONBLOCK, os.O_APPEND]),
                                 "body": INPUT_BODY[:6]})
+    for kind in ("input", "cbreak", "termmode", "nonblocking", "caw", "full+input"):
+        for late in ("raw", "noecho", "vmin"):
+            body = {"input": INPUT_BODY[:4], "cbreak": ["cbreak-inner", "nonblocking-inner"],
+                    "termmode": ["nonblocking-inner"], "nonblocking": ["nonblocking-inner"],
+                    "caw": CAW_BODY[:3], "full+input": NEST_BODY[:4]}[kind]
+            out.append({"kind": kind, "late": late, "tty": rng.choice(TTY_MODES), "body": body,
+                        "cfg": {"sigint_event": late == "raw"}})
+            if kind in ("cbreak", "termmode", "nonblocking"):
+                out.append({"kind": kind, "twice": late, "tty": rng.choice(TTY_MODES), "body": body})
     for disp in ("dfl", "ign"):
         for se in (False, True):
             out.append({"kind": "input", "cfg": {"sigint_event": se}, "disposition": disp, "tty": rng.choice(TTY_MODES),
